@@ -1364,6 +1364,11 @@ impl PycParser {
     fn set_zero_mtime(&mut self) -> Result<bool> {
         // Set the embedded mtime timestamp of the source .py file to 0 in the header.
 
+        if self.version >= (3, 7) && self._read_long_at(4) & 0x1 != 0 {
+            // PEP 552 hash-based pyc: bytes 8..16 hold the source hash, there is no mtime.
+            return Ok(false);
+        }
+
         if self.py_content_mtime() == 0 {
             return Ok(false);
         }
